@@ -106,7 +106,12 @@ func validReply(cmd, name, variant string) string {
 
 func procScript(in PPIn, name, fifo string) string {
 	var sb strings.Builder
-	sb.WriteString("#!/bin/sh\ncat > /dev/null\n")
+	// most plugins read their request; one in three answers (or fails) without ever looking at its input
+	if ppSalt(name)%3 == 0 {
+		sb.WriteString("#!/bin/sh\n")
+	} else {
+		sb.WriteString("#!/bin/sh\ncat > /dev/null\n")
+	}
 	if in.Timing == "heldPipes" || in.Timing == "slowHeld" || in.Timing == "slowHeldCancel" {
 		// a descendant that inherits stdout/stderr and keeps them open until the harness releases it
 		fmt.Fprintf(&sb, "( read x < %q ) &\n", fifo)
@@ -290,21 +295,39 @@ func runPluginProc() int {
 	return runParallel(cases, fn, *flagOut, *flagWorkers)
 }
 
+func ppSalt(name string) int {
+	salt := 0
+	for _, ch := range name {
+		salt = salt*31 + int(ch)
+	}
+	if salt < 0 {
+		salt = -salt
+	}
+	return salt
+}
+
 // ppCall makes one call of the given command through the real CLIPlugin
 func ppCall(ctx context.Context, cmd, name, path string) (resp interface{}, callErr error) {
 	p, err := plugin.NewCLIPlugin(ctx, name, path)
 	must(err)
+	// the request: a few bytes, or (one call in four) far more than a pipe holds - a large payload, a large configuration value
+	var cfg map[string]string
+	payload := []byte("x")
+	if (ppSalt(name)/3)%4 == 0 {
+		cfg = map[string]string{"blob": strings.Repeat("c", 300<<10)}
+		payload = []byte(strings.Repeat("p", 1<<20))
+	}
 	switch cmd {
 	case "get-plugin-metadata":
-		return p.GetMetadata(ctx, &pf.GetMetadataRequest{})
+		return p.GetMetadata(ctx, &pf.GetMetadataRequest{PluginConfig: cfg})
 	case "describe-key":
-		return p.DescribeKey(ctx, &pf.DescribeKeyRequest{KeyID: "k-" + name})
+		return p.DescribeKey(ctx, &pf.DescribeKeyRequest{KeyID: "k-" + name, PluginConfig: cfg})
 	case "generate-signature":
-		return p.GenerateSignature(ctx, &pf.GenerateSignatureRequest{KeyID: "k-" + name, Payload: []byte("x")})
+		return p.GenerateSignature(ctx, &pf.GenerateSignatureRequest{KeyID: "k-" + name, Payload: payload, PluginConfig: cfg})
 	case "generate-envelope":
-		return p.GenerateEnvelope(ctx, &pf.GenerateEnvelopeRequest{KeyID: "k-" + name, Payload: []byte("x")})
+		return p.GenerateEnvelope(ctx, &pf.GenerateEnvelopeRequest{KeyID: "k-" + name, Payload: payload, PluginConfig: cfg})
 	case "verify-signature":
-		return p.VerifySignature(ctx, &pf.VerifySignatureRequest{})
+		return p.VerifySignature(ctx, &pf.VerifySignatureRequest{PluginConfig: cfg})
 	}
 	panic("unknown command " + cmd)
 }
